@@ -10,7 +10,7 @@
    The statements hold for every logarithm / power function [lg], [ex] plugged into the model. *)
 From Coq Require Import ZArith List Bool Lia.
 Import ListNotations.
-From Osmo Require Import Base.DecModel Gen.C10_consts C10.Model C10.LogExp C10.Spec C10.ProofsList C10.ProofsChain C10.ProofsTwap C10.ProofsLog C10.ProofsFull C10.Lift C10.Corr C10.CorrLink.
+From Osmo Require Import Base.DecModel Gen.C10_consts C10.Model C10.LogExp C10.Spec C10.ProofsSum C10.ProofsList C10.ProofsChain C10.ProofsTwap C10.ProofsLog C10.ProofsAnswer C10.ProofsFull C10.Lift C10.Corr C10.CorrLink.
 Open Scope Z_scope.
 
 (* arithmetic TWAP = the code's rounding (truncating division) of  sum p_i * dt_i / (end - start), for every history,
@@ -72,6 +72,14 @@ Theorem C10_reachable_sorted : forall lg t0 h0 w0 w1 evs p G,
 Proof. intros lg t0 h0 w0 w1 evs p G H. destruct (history_inv _ _ _ _ _ _ _ _ H) as ((_ & _ & Hs & _) & _). exact Hs. Qed.
 Print Assumptions C10_reachable_sorted.
 
+(* the exponent that C10_geom_structure hands to Exp2 - the truncated mean m of the logarithms - lies between the smallest
+   and the largest log2 of the prices in force (the integer core of "geometric TWAP between min and max") *)
+Theorem C10_geom_exponent_between : forall lg evs a b lo hi, a < b ->
+  (forall tau, a <= tau < b -> lo <= glogv lg (price_at evs true 0 tau) <= hi) ->
+  lo <= Z.quot (integral (fun tau => glogv lg (price_at evs true 0 tau)) a b) (b - a) <= hi.
+Proof. intros lg evs a b lo hi Hab H. apply mean_between; assumption. Qed.
+Print Assumptions C10_geom_exponent_between.
+
 (* the two quote directions of the geometric TWAP come from one and the same Exp2 value E: one is the code's rounding of E,
    the other of the rounded reciprocal 10^72/E (bd_quo), which satisfies |E * recip - 10^72| <= E/2 + E/10^36 *)
 Theorem C10_geom_reciprocal : forall lg ex t0 h0 w0 w1 evs p G now start stop f0 v0 f1 v1,
@@ -108,8 +116,8 @@ Print Assumptions C10_log_table_faithful.
    - C10_geom_full is FALSE of the faithful model (finding F7): proved under the side condition diff <> 0
      (C10_geom_conditional), refuted at price == 1 (C10_geom_full_refuted).
    - C10_answers_full is FALSE of the faithful model (finding C10-SUBMS): an interval inside one millisecond panics
-     (C10_answers_full_refuted); for ms start < ms stop the remaining failure causes are the 2^256 range assertions of
-     Dec arithmetic and Exp2's exponent bound 2^9, not excluded here (partial).
+     (C10_answers_full_refuted); for ms start < ms stop the arithmetic TWAP is always answered (C10_arith_answered); for
+     the geometric TWAP the remaining failure cause, Exp2's exponent bound 2^9, is not excluded here (partial).
    - the real-analysis bounds need error bounds for LogBase2 and Exp2 (property C13): not proved here (partial). *)
 Definition C10_full : Prop := C10_geom_full twap_log exp2 /\ C10_answers_full twap_log exp2.
 
@@ -133,6 +141,17 @@ Print Assumptions C10_geom_full_refuted.
 Theorem C10_answers_full_refuted : ~ C10_answers_full twap_log exp2.
 Proof. exact answers_full_refuted. Qed.
 Print Assumptions C10_answers_full_refuted.
+
+(* the positive part of C10_answers_full for the arithmetic TWAP: with the real twapLog, non-negative pool prices and a
+   history of at most 2^63 ms, every arithmetic query over ms start < ms stop inside the window IS answered with a value
+   (which C10_arith_eq_weighted_mean identifies) - no panic, no error *)
+Theorem C10_arith_answered : forall ex t0 h0 w0 w1 evs p G now q0 start stop,
+  history twap_log t0 h0 w0 w1 evs p G -> raw_nonneg w0 -> raw_nonneg w1 -> evs_nonneg evs ->
+  r_time (p_recent p) <= now -> t0 <= start -> max_keep t0 evs <= start -> start <= stop <= now ->
+  ms start < ms stop -> ms now - ms t0 <= span_max ->
+  exists f v, twap_between twap_log ex now p q0 false start stop = QVal f v.
+Proof. exact arith_answered_real. Qed.
+Print Assumptions C10_arith_answered.
 
 (* ---- the module as a whole ----
    [grun lg (ginit t0 h0 limit keep_period) zero_time ops = (st, km)]: the module state after any sequence of pool creations,
